@@ -148,6 +148,22 @@ class FnTr:
             if key in self.consts:
                 return self.consts[key]
             raise Unsupported(f"attribute {key}")
+        if isinstance(n, ast.IfExp) or (isinstance(n, ast.Call) and ast.unparse(n.func) in ("np.where", "where") and len(n.args) == 3):
+            test, a_, b_ = (n.test, n.body, n.orelse) if isinstance(n, ast.IfExp) else n.args
+            c, tc = self.expr(test, env)
+            a, ta = self.expr(a_, env)
+            b, tb = self.expr(b_, env)
+            if tc != "B":
+                raise Unsupported("non-boolean condition")
+            if ta != tb:
+                a, b, ta = self.toF(a, ta), self.toF(b, tb), "F"
+            return f"(if {c} then {a} else {b})", ta
+        if isinstance(n, ast.BinOp) and isinstance(n.op, ast.Mod):
+            a, ta = self.expr(n.left, env)
+            b, tb = self.expr(n.right, env)
+            if ta == tb == "I":
+                return f"(pyModInt {a} {b})", "I"
+            return f"(pyRemainder {self.toF(a, ta)} {self.toF(b, tb)})", "F"
         if isinstance(n, ast.UnaryOp) and isinstance(n.op, ast.USub):
             e, t = self.expr(n.operand, env)
             return f"(-{e})", t
@@ -554,6 +570,11 @@ TARGETS = {
             ("wrapAngleNegPiPi", "wrapAngleNegPiPi", {"angle": "F"}, 0),
             ("wrapAngle2Pi", "wrapAngle2Pi", {"angle": "F"}, 0),
             ("fpe_equals", "fpe_equals", {"value": "F", "expected": "F"}, 0),
+            ("residual", "residual", {"val1": "F", "val2": "F", "angular": "B"}, 0),
+            # the vectorised helpers act element by element: translated at one element
+            ("vecWrapAngleNeg", "vecWrapAngleNeg", {"angles": "F"}, 0),
+            ("vecWrapAngle2Pi", "vecWrapAngle2Pi", {"angles": "F"}, 0),
+            ("vecResiduals", "vecResiduals", {"vec1": "F", "vec2": "F", "angular": "B"}, 0),
         ],
     },
 }
